@@ -44,6 +44,8 @@ for name in sorted(os.listdir(os.path.join(HERE, "seeded"))):
     if not os.path.isdir(d) or (sel and not any(s in name for s in sel)):
         continue
     props = [p for p in PROPS.get(name, [name[:3]]) if p in claimed]
+    if os.environ.get("SEED_ALL_OWN"):
+        props = [name[:3]] if name[:3] in claimed else props[:1]  # only the check of the property the change was written against
     if not props:
         print(f"{name}: property not claimed yet"); continue
     scratch = tempfile.mkdtemp(prefix="hc-seed-", dir="/var/tmp")
